@@ -220,7 +220,8 @@ def run():
                 else:
                     ck.violation("select of %r with / without formatting does not compile for %s" % (n, d), {"kind": "format-tokens", "name": n, "dialect": d, "answers": [a0, a1]})
         B = 40
-        fv = [x for v in coq_eval(HEADER, ["[" + "; ".join("(map tok_view (sql_lex std_sql %s), map tok_view (sql_lex std_sql %s))" % (coq_codes(u), coq_codes(f)) for _, _, u, f in pairs[i:i + B]) + "]"
+        HL = "From Coq Require Import List NArith.\nFrom PV Require Import Lib.ListX Model.SqlLex.\nImport ListNotations.\nLocal Open Scope N_scope.\n"   # no Gen file needed
+        fv = [x for v in coq_eval(HL, ["[" + "; ".join("(map tok_view (sql_lex std_sql %s), map tok_view (sql_lex std_sql %s))" % (coq_codes(u), coq_codes(f)) for _, _, u, f in pairs[i:i + B]) + "]"
                                            for i in range(0, len(pairs), B)]) for x in v]
         for (n, d, u, f), (tu, tf) in zip(pairs, fv):
             ck.count("format-tokens", d + "|" + n, nontrivial=("\\" in n or '"' in n))
